@@ -1,6 +1,6 @@
 import re
 
-from orchestrate.common import run_check
+from orchestrate.common import run_check, REPO
 from checks.c06 import e2e_post, e2e_coverage, _skipped, _fld, _nframes, full_run
 
 # ---- census tie: the variant lists of the three error enums in /repo vs. the model's inductive
@@ -75,9 +75,9 @@ def _variants(path, enum):
 
 def _census(lines):
     problems = []
-    req = _variants("/repo/scylla/src/errors.rs", "RequestError")
-    att = _variants("/repo/scylla/src/errors.rs", "RequestAttemptError")
-    db = _variants("/repo/scylla-cql-core/src/frame/response/error.rs", "DbError")
+    req = _variants(REPO + "/scylla/src/errors.rs", "RequestError")
+    att = _variants(REPO + "/scylla/src/errors.rs", "RequestAttemptError")
+    db = _variants(REPO + "/scylla-cql-core/src/frame/response/error.rs", "DbError")
     if req is None or att is None or db is None:
         return [("diff", "census", "diff census: cannot find the error enums in /repo")]
     code = set()
@@ -123,6 +123,9 @@ def _slow_first(t):
 def _post(lines, verdicts):
     out = _census(lines) + e2e_post(lines, "E13", E13_FLOORS)
     if full_run(lines):
+        sh = sum(1 for ln in lines if ln.startswith("E13 ") and re.search(r"\| env:\d+:rp\d+:sh[1-9]", ln))
+        if sh < 40:
+            out.append(("diff", "E13", "diff e2e floor: %d scenarios on sharded nodes (floor 40)" % sh))
         kinds = {}
         for ln in lines:
             k = ln.split(" ", 1)[0]
@@ -171,8 +174,10 @@ SPEC = {
              "X max interval fibers = one call of the real speculative_execution::execute (hook) under a paused Tokio "
              "clock with synthetic executions (k-th runner invocation sleeps dur_k ticks and yields out_k in "
              "{Success tag, any error variant, None = plan exhausted}); exhaustive part: every assignment of "
-             "(duration in a 4-5 point grid, outcome class) to 1+max executions for max <= 2 (quick) / <= 3 (thorough) x "
-             "intervals; seeded random part (3/4 of n): max 0..4, <= 5 executions, interval in {0,1,2,3,5,(6..20)}, "
+             "(duration from a grid, outcome class) to 1+max executions for max 0..4 in both tiers (quick: 4-point grids for "
+             "max <= 2, 2 durations for max 3, 1 for max 4; thorough: 4-5 point grids up to max 3, 2 durations for max 4) x "
+             "intervals; the last token of an X observation tells how the REAL can_be_ignored classified each listed "
+             "outcome (where it differs from the model's table the case is a diff); seeded random part (3/4 of n): max 0..4, <= 5 executions, interval in {0,1,2,3,5,(6..20)}, "
              "durations biased to ties with the timer and with each other. "
              "P idem metrics policy targets = one call of the real run_request_no_side_effects (hook) over a plan of "
              "probe targets (each attempt lasts delay ticks, then fails with a pool error); exhaustive part: every gate "
@@ -184,7 +189,7 @@ SPEC = {
              "shapes: statement not idempotent / idempotent x profile with / without a speculative policy, first answer of "
              "every page delayed 300 ms, through each of the 7 session APIs) = a mock cluster of 2-4 nodes + one real "
              "Session + 3-9 logical requests (query_unpaged / execute_unpaged / batch / *_single_page / *_iter, 1-3 pages; "
-             "88 % with SimpleSpeculativeExecutionPolicy max 1-3, interval 30 ms; 60 % idempotent; answers delayed 300 ms "
+             "88 % with SimpleSpeculativeExecutionPolicy max 0-3, interval 30 ms; 40 % of the scenarios on nodes with 2-3 shards; 60 % idempotent; answers delayed 300 ms "
              "on the first / later frames, successes, ignorable and definitive ERROR frames; no cut connections); per "
              "logical request and page the frames the mock received with arrival / answer instants, the call's start / "
              "return instants, the caller's result and coordinator must be accepted by the extracted checker e2e_check13 "
